@@ -8,10 +8,16 @@ def prepare(rp, ce, params):
     n = 2 + trace_val(ce, "nodes")
     kinds = [["true", "false", "data", "err"][trace_val(ce, f"kind{i}")] for i in range(n)]
     ca = trace_val(ce, "collect_all")
+    front = bool(ce.get("front_pad"))
+    if front:
+        kinds = ["true"] + kinds; n += 1
     fields = dict(kind="check_graph", n=str(n), edge_starts=" ".join(["65535"] * n), edges="", collect_all=str(ca))
     for i, k in enumerate(kinds):
         # padding pushes make the programs (hence their content addresses) distinct
         pad = "".join(f"Stack::Push:{100 + i};Stack::Pop:0;" for _ in range(1))
+        # lower-indexed nodes take longer, so on a pool with several threads the completion order tends to differ from the index order
+        delay = (100000 if i == 0 else 0) if front else 30000 * (n - 1 - i)
+        if delay: pad += f"Stack::Push:{delay};Stack::Push:1;Stack::Repeat:0;Stack::Push:0;Stack::Pop:0;Stack::RepeatEnd:0;"
         if k == "true": prog = pad + "Stack::Push:1"
         elif k == "false": prog = pad + "Stack::Push:0"
         elif k == "err": prog = pad + "Stack::Pop:0"
@@ -38,3 +44,9 @@ def prepare(rp, ce, params):
         got = [int(x.split("|")[0].strip("[ ")) for x in out.get("mutation_list", "").split(";") if x.strip()]
         return out["result"] != "ok" or got != data, f"data outputs of nodes {data} expected in that order, real: {out['result']} {got} {err[:100]}"
     return fields, judge
+
+
+def variants(rp, ce, params):
+    """the same level behind one slow satisfied leaf: with two workers the second half of the level then finishes before the
+    first half has started its later nodes"""
+    yield "one slow satisfied leaf in front (indices shift by one)", dict(ce, front_pad=True)
